@@ -159,27 +159,27 @@ theorem FinalCalls.callsOf {l : List (Bytes × Bool)} {body : Bytes} (h : FinalC
   obtain ⟨ws, last, m, h1, h2⟩ := h
   exact ⟨ws, last, m, h1, h2⟩
 
-/-- **stage 1 ∘ stage 2.**  For every case (protocol, io mode, script within the usage contract, schedule),
-configuration and cache content: the response ends `Done` (stage 1), and for any presentation `F` of the
-protocol's `format_output` from the state `set_response_headers` left, as long as the announced length (if
-any) is respected: the connection is never violated / given up / broken, nothing stays pending, and the bytes
-on the wire are `F.run` of the device's calls — which the independent de-framer decodes to one head and exactly
-the bytes the device was given. -/
-theorem response_wire_generic (cfg : Config) (cache : PageCache) (cs : Case) (hwf : wellFormed cs.mode cs.script = true) :
+/-- the framing state `set_response_headers` leaves for header set `H` -/
+def Case.framer (cs : Case) (H : Headers) : Framer := (Wire.init cs.proto cs.sched).fr.setHeaders H
+
+/-- **stage 1 ∘ stage 2, at the level of `format_output` calls.**  For every case (protocol, io mode, script
+within the usage contract, schedule), configuration and cache content: the response ends `Done` (stage 1); the
+device's calls are `callsOf ws last` with `ws.flatten ++ last` = what left the buffer chain; and unless
+`format_output` raises `protocol_violation` on them, the connection is never violated / given up / broken,
+nothing stays pending, and the bytes on the wire are exactly the concatenated `format_output` results. -/
+theorem response_wire_calls (cfg : Config) (cache : PageCache) (cs : Case) (hwf : wellFormed cs.mode cs.script = true) :
     ∃ Z, Done (runCaseWith D cfg cache cs).run.resp (runCaseWith D cfg cache cs).run.resp.written Z ∧
       (runCaseWith D cfg cache cs).run.resp.mode = cs.mode ∧
-      ∀ (F : Framing),
-        (∀ calls, F.run calls = (((Wire.init cs.proto cs.sched).fr.setHeaders (runCaseWith D cfg cache cs).run.resp.wireHeaders).run calls).2) →
-        (cs.mode.isRaw = true → (rawNext {} (runCaseWith D cfg cache cs).run.resp.written).done = true) →
-        F.lengthOk (filterOf cs.mode.isRaw Z).length →
-        (runCaseWith D cfg cache cs).wire.violated = false ∧ (runCaseWith D cfg cache cs).wire.gaveUp = false ∧
-        (runCaseWith D cfg cache cs).wire.conn.broken = false ∧ (runCaseWith D cfg cache cs).wire.conn.backlog = [] ∧
-        ∃ ws last head, ws.flatten ++ last = filterOf cs.mode.isRaw Z ∧
-          (runCaseWith D cfg cache cs).wire.conn.wire = (F.run (callsOf ws last)).1 ∧
-          F.deframe (runCaseWith D cfg cache cs).wire.conn.wire = some (head, filterOf cs.mode.isRaw Z) := by
+      ((cs.mode.isRaw = true → (rawNext {} (runCaseWith D cfg cache cs).run.resp.written).done = true) →
+        ∃ ws last, ws.flatten ++ last = filterOf cs.mode.isRaw Z ∧
+          (((cs.framer (runCaseWith D cfg cache cs).run.resp.wireHeaders).run (callsOf ws last)).2.2 = false →
+            (runCaseWith D cfg cache cs).wire.violated = false ∧ (runCaseWith D cfg cache cs).wire.gaveUp = false ∧
+            (runCaseWith D cfg cache cs).wire.conn.broken = false ∧ (runCaseWith D cfg cache cs).wire.conn.backlog = [] ∧
+            (runCaseWith D cfg cache cs).wire.conn.wire =
+              ((cs.framer (runCaseWith D cfg cache cs).run.resp.wireHeaders).run (callsOf ws last)).2.1)) := by
   obtain ⟨Z, dn, hmode⟩ := response_trace_spec (D := D) cfg cache cs.mode cs.gz cs.script hwf
   refine ⟨Z, dn, hmode, ?_⟩
-  intro F hF hraw hlen
+  intro hraw
   generalize hr : (runCaseWith D cfg cache cs).run.resp = r at *
   have hr' : (runScript D cfg cache cs.mode cs.gz cs.script).resp = r := hr
   rw [hr'] at dn hmode
@@ -188,9 +188,9 @@ theorem response_wire_generic (cfg : Config) (cache : PageCache) (cs : Case) (hw
   obtain ⟨a, c, ht, ha1, ha2, hc⟩ := hsh
   obtain ⟨ws, last, m, hcalls, hbody⟩ := dn.calls.callsOf
   rw [hmode] at hbody
-  -- no overrun
-  obtain ⟨head, hnv, hde⟩ := F.roundtrip ws last (by rw [hbody]; exact hlen)
-  rw [hF] at hnv
+  refine ⟨ws, last, hbody, ?_⟩
+  intro hnv
+  unfold Case.framer at hnv ⊢
   have htr := Framer.run_trailing ((Wire.init cs.proto cs.sched).fr.setHeaders r.wireHeaders) (callsOf ws last) m (callsOf_ne_nil ws last) hnv
   rw [← hcalls] at htr
   have hnv' : (((Wire.init cs.proto cs.sched).fr.setHeaders r.wireHeaders).run r.trace.sends).2.2 = false := by rw [htr]; exact hnv
@@ -208,14 +208,152 @@ theorem response_wire_generic (cfg : Config) (cache : PageCache) (cs : Case) (hw
     · exact wp (by simpa using hasync)
   have hback : ((Wire.init cs.proto cs.sched).replay (!cs.mode.isAsync) r.trace).conn.backlog = [] := by
     unfold Conn.backlog; rw [wi.nofl, hpend]; rfl
-  refine ⟨wi.nov, wi.ngu, wi.nb, hback, ws, last, head, hbody, ?_, ?_⟩
-  · have hinv := wi.conn
-    unfold Conn.Inv at hinv
-    rw [hback, List.append_nil, wi.handed, wi.outs, wc, htr, ← hF] at hinv
-    exact hinv
-  · have hinv := wi.conn
-    unfold Conn.Inv at hinv
-    rw [hback, List.append_nil, wi.handed, wi.outs, wc, htr, ← hF] at hinv
-    rw [hinv, hde, hbody]
+  refine ⟨wi.nov, wi.ngu, wi.nb, hback, ?_⟩
+  have hinv := wi.conn
+  unfold Conn.Inv at hinv
+  rw [hback, List.append_nil, wi.handed, wi.outs, wc, htr] at hinv
+  exact hinv
+
+/-- **stage 1 ∘ stage 2, with the client's view.**  As `response_wire_calls`, for any presentation `F` of the
+protocol's `format_output` that comes with a round-trip theorem against the independent de-framer: the client
+decodes the wire to one head and exactly the bytes that left the buffer chain. -/
+theorem response_wire_generic (cfg : Config) (cache : PageCache) (cs : Case) (hwf : wellFormed cs.mode cs.script = true) :
+    ∃ Z, Done (runCaseWith D cfg cache cs).run.resp (runCaseWith D cfg cache cs).run.resp.written Z ∧
+      (runCaseWith D cfg cache cs).run.resp.mode = cs.mode ∧
+      ∀ (F : Framing),
+        (∀ calls, F.run calls = ((cs.framer (runCaseWith D cfg cache cs).run.resp.wireHeaders).run calls).2) →
+        (cs.mode.isRaw = true → (rawNext {} (runCaseWith D cfg cache cs).run.resp.written).done = true) →
+        F.lengthOk (filterOf cs.mode.isRaw Z).length →
+        (runCaseWith D cfg cache cs).wire.violated = false ∧ (runCaseWith D cfg cache cs).wire.gaveUp = false ∧
+        (runCaseWith D cfg cache cs).wire.conn.broken = false ∧ (runCaseWith D cfg cache cs).wire.conn.backlog = [] ∧
+        ∃ ws last head, ws.flatten ++ last = filterOf cs.mode.isRaw Z ∧
+          (runCaseWith D cfg cache cs).wire.conn.wire = (F.run (callsOf ws last)).1 ∧
+          F.deframe (runCaseWith D cfg cache cs).wire.conn.wire = some (head, filterOf cs.mode.isRaw Z) := by
+  obtain ⟨Z, dn, hmode, rest⟩ := response_wire_calls (D := D) cfg cache cs hwf
+  refine ⟨Z, dn, hmode, ?_⟩
+  intro F hF hraw hlen
+  obtain ⟨ws, last, hbody, hw⟩ := rest hraw
+  obtain ⟨head, hnv, hde⟩ := F.roundtrip ws last (by rw [hbody]; exact hlen)
+  rw [hF] at hnv
+  obtain ⟨w1, w2, w3, w4, w5⟩ := hw hnv
+  refine ⟨w1, w2, w3, w4, ws, last, head, hbody, by rw [w5, hF], ?_⟩
+  rw [w5, ← hbody, ← hde, hF]
+
+/-! ### the three protocols -/
+
+/-- the properties of a run that do not depend on the protocol -/
+structure WireOk (w : Wire) : Prop where
+  noViolation : w.violated = false
+  notGivenUp : w.gaveUp = false
+  notBroken : w.conn.broken = false
+  allSent : w.conn.backlog = []
+
+theorem Case.framer_scgi (cs : Case) (H : Headers) (hp : cs.proto = .scgi) :
+    (cs.framer H).proto = .scgi ∧ (cs.framer H).scgi = { headers := xcgiHeaders false H, headersWritten := false } := by
+  unfold Case.framer Wire.init Framer.setHeaders
+  rw [hp]
+  exact ⟨rfl, rfl⟩
+
+theorem Case.framer_fcgi (cs : Case) (H : Headers) (hp : cs.proto = .fcgi) :
+    (cs.framer H).proto = .fcgi ∧ (cs.framer H).fcgi = { reqId := 1, responseHeaders := xcgiHeaders false H, headersWritten := false } := by
+  unfold Case.framer Wire.init Framer.setHeaders
+  rw [hp]
+  exact ⟨rfl, rfl⟩
+
+theorem Case.framer_http (cs : Case) (H : Headers) (a c : Bool) (hp : cs.proto = .http a c) :
+    (cs.framer H).proto = .http a c ∧
+    (cs.framer H).http = ({ isHttp11 := a, clientKeepAlive := c } : HttpSt).setHeaders H := by
+  unfold Case.framer Wire.init Framer.setHeaders
+  rw [hp]
+  exact ⟨rfl, rfl⟩
+
+theorem callsOf_fst (ws : List Bytes) (last : Bytes) : (callsOf ws last).map (·.1) = ws ++ [last] := by
+  simp only [callsOf, List.map_append, List.map_map, List.map_cons, List.map_nil]
+  congr 1
+  induction ws with
+  | nil => rfl
+  | cons w ws ih => simp only [List.map_cons, Function.comp]; rw [ih]
+
+/-- **SCGI (and CGI).**  The wire is the header block followed by the bytes that left the buffer chain —
+nothing else, for every script, mode, buffer configuration and socket schedule, whatever the headers are. -/
+theorem response_wire_eq_scgi (cfg : Config) (cache : PageCache) (cs : Case) (hwf : wellFormed cs.mode cs.script = true)
+    (hp : cs.proto = .scgi) :
+    ∃ Z, Done (runCaseWith D cfg cache cs).run.resp (runCaseWith D cfg cache cs).run.resp.written Z ∧
+      ((cs.mode.isRaw = true → (rawNext {} (runCaseWith D cfg cache cs).run.resp.written).done = true) →
+        WireOk (runCaseWith D cfg cache cs).wire ∧
+        (runCaseWith D cfg cache cs).wire.conn.wire =
+          xcgiHeaders false (runCaseWith D cfg cache cs).run.resp.wireHeaders ++ filterOf cs.mode.isRaw Z) := by
+  obtain ⟨Z, dn, _, rest⟩ := response_wire_calls (D := D) cfg cache cs hwf
+  refine ⟨Z, dn, fun hraw => ?_⟩
+  obtain ⟨ws, last, hbody, hw⟩ := rest hraw
+  have ⟨fp, fs⟩ := cs.framer_scgi (runCaseWith D cfg cache cs).run.resp.wireHeaders hp
+  have hrun := Framer.run_scgi (callsOf ws last) _ fp
+  rw [fs, callsOf_fst] at hrun
+  obtain ⟨w1, w2, w3, w4, w5⟩ := hw (by rw [hrun])
+  refine ⟨⟨w1, w2, w3, w4⟩, ?_⟩
+  rw [w5, hrun, ← hbody]
+  cases ws with
+  | nil => rw [List.nil_append, scgiRun_fresh]; simp
+  | cons w ws' => rw [List.cons_append, scgiRun_fresh]; simp [List.append_assoc]
+
+/-- **FastCGI.**  The wire is a sequence of well-formed records for request 1 — STDOUT records, one empty
+STDOUT record, END_REQUEST — whose STDOUT stream is the header block followed by the bytes that left the
+buffer chain. -/
+theorem response_wire_eq_fcgi (cfg : Config) (cache : PageCache) (cs : Case) (hwf : wellFormed cs.mode cs.script = true)
+    (hp : cs.proto = .fcgi) :
+    ∃ Z, Done (runCaseWith D cfg cache cs).run.resp (runCaseWith D cfg cache cs).run.resp.written Z ∧
+      ((cs.mode.isRaw = true → (rawNext {} (runCaseWith D cfg cache cs).run.resp.written).done = true) →
+        WireOk (runCaseWith D cfg cache cs).wire ∧
+        ∃ ds, ds.flatten = xcgiHeaders false (runCaseWith D cfg cache cs).run.resp.wireHeaders ++ filterOf cs.mode.isRaw Z ∧
+          (runCaseWith D cfg cache cs).wire.conn.wire = fcgiWire 1 ds ∧
+          Spec.deRecords (runCaseWith D cfg cache cs).wire.conn.wire = some (fcgiAllRecs 1 ds) ∧
+          Spec.fcgiStdoutStream 1 (fcgiAllRecs 1 ds) = some ds.flatten) := by
+  obtain ⟨Z, dn, _, rest⟩ := response_wire_calls (D := D) cfg cache cs hwf
+  refine ⟨Z, dn, fun hraw => ?_⟩
+  obtain ⟨ws, last, hbody, hw⟩ := rest hraw
+  have ⟨fp, fs⟩ := cs.framer_fcgi (runCaseWith D cfg cache cs).run.resp.wireHeaders hp
+  have hrun := Framer.run_fcgi (callsOf ws last) _ fp
+  rw [fs] at hrun
+  obtain ⟨w1, w2, w3, w4, w5⟩ := hw (by rw [hrun])
+  refine ⟨⟨w1, w2, w3, w4⟩, ?_⟩
+  rw [w5, hrun, ← hbody]
+  have hfr := fcgiRun_fresh 1 (xcgiHeaders false (runCaseWith D cfg cache cs).run.resp.wireHeaders) ws last
+  unfold callsOf
+  simp only
+  rw [hfr]
+  cases ws with
+  | nil =>
+    exact ⟨[_ ++ last], by simp, rfl, deRecords_fcgiWire 1 (by decide) _, fcgiStdoutStream_wire 1 (by decide) _⟩
+  | cons w ws' =>
+    exact ⟨(_ ++ w) :: ws' ++ [last], by simp [List.append_assoc], rfl, deRecords_fcgiWire 1 (by decide) _, fcgiStdoutStream_wire 1 (by decide) _⟩
+
+/-- **HTTP.**  If the header set `out()` handed over is presentable (`HttpReady`: status line and header lines
+without CR, no Transfer-Encoding of the application's own, at most one well-formed Content-Length) and the body
+respects the Content-Length the application announced (if any), the wire is one head — the application's status
+line and headers first, then the lines `format_output` adds — followed by the body in the framing
+`format_output` chose, and an RFC 7230 client decodes it to exactly the bytes that left the buffer chain. -/
+theorem response_wire_eq_http (cfg : Config) (cache : PageCache) (cs : Case) (hwf : wellFormed cs.mode cs.script = true)
+    (a c : Bool) (hp : cs.proto = .http a c) (l0 : Bytes) (rest0 : List Bytes)
+    (hready : HttpReady (({ isHttp11 := a, clientKeepAlive := c } : HttpSt).setHeaders (runCaseWith D cfg cache cs).run.resp.wireHeaders) l0 rest0) :
+    ∃ Z, Done (runCaseWith D cfg cache cs).run.resp (runCaseWith D cfg cache cs).run.resp.written Z ∧
+      ((cs.mode.isRaw = true → (rawNext {} (runCaseWith D cfg cache cs).run.resp.written).done = true) →
+       (∀ n, (({ isHttp11 := a, clientKeepAlive := c } : HttpSt).setHeaders (runCaseWith D cfg cache cs).run.resp.wireHeaders).contentLength = some n →
+          (filterOf cs.mode.isRaw Z).length = n) →
+        WireOk (runCaseWith D cfg cache cs).wire ∧
+        ∃ extras enc,
+          (runCaseWith D cfg cache cs).wire.conn.wire = joinLines (l0 :: (rest0 ++ extras)) ++ [13, 10] ++ enc ∧
+          Spec.deHttp (runCaseWith D cfg cache cs).wire.conn.wire =
+            some (joinLines (l0 :: (rest0 ++ extras)) ++ [13, 10], filterOf cs.mode.isRaw Z)) := by
+  obtain ⟨Z, dn, _, rest⟩ := response_wire_calls (D := D) cfg cache cs hwf
+  refine ⟨Z, dn, fun hraw hlen => ?_⟩
+  obtain ⟨ws, last, hbody, hw⟩ := rest hraw
+  have ⟨fp, fs⟩ := cs.framer_http (runCaseWith D cfg cache cs).run.resp.wireHeaders a c hp
+  have hrun := Framer.run_http (callsOf ws last) _ a c fp
+  rw [fs] at hrun
+  obtain ⟨extras, enc, h1, h2⟩ := http_roundtrip_lemma _ l0 rest0 hready ws last (by rw [hbody]; exact hlen)
+  rw [h1] at hrun
+  obtain ⟨w1, w2, w3, w4, w5⟩ := hw (by rw [hrun])
+  refine ⟨⟨w1, w2, w3, w4⟩, extras, enc, by rw [w5, hrun], ?_⟩
+  rw [w5, hrun, h2, hbody]
 
 end Cppcms.C03
